@@ -7,6 +7,7 @@ import (
 	"encoding/base64"
 	"encoding/json"
 	"fmt"
+	"io"
 	"net/http"
 	"sort"
 	"strings"
@@ -416,7 +417,11 @@ func vfRenderGRPCWebTrailers(e vfErrSpec, mal string) string {
 				}
 			}
 		}
-		sb.WriteString(key + ": " + val + eol)
+		if i == 0 && mal == "lf-first" {
+			sb.WriteString(key + ": " + val + "\n")
+		} else {
+			sb.WriteString(key + ": " + val + eol)
+		}
 		if i == 0 && mal == "blank-inside" {
 			sb.WriteString(eol)
 		}
@@ -491,6 +496,8 @@ var vfTrailerBlockMals = map[string]string{
 	// malformations that sit at the edge of a value, where only space and tab may be skipped
 	"cr-cr-lf": "value contains invalid characters", "value-lead-ff": "value contains invalid characters", "value-trail-vt": "value contains invalid characters",
 	"message-edge-nbsp": "VERIF-ANY", "message-edge-nel": "VERIF-ANY",
+	// only the first line ends in a bare LF, the others in CRLF
+	"lf-first": "LF line ending instead of CRLF",
 }
 
 var vfStatusMals = map[string]string{
@@ -506,6 +513,9 @@ type vfC13Case struct {
 	Form string    `json:"form"` // connect-error, end-stream, grpc-web, grpc
 	Mal  string    `json:"mal"`  // "" = well-formed
 	Via  string    `json:"via"`  // direct or trace (through examineWireDetails)
+	// TraceErr (via trace): the exchange failed after the end-of-stream message had arrived in full (the peer went
+	// away before the last chunk, the call was cancelled): what arrived is examined all the same
+	TraceErr bool `json:"traceErr,omitempty"`
 }
 
 func vfExamine(c vfC13Case) []string {
@@ -527,7 +537,7 @@ func vfExamine(c vfC13Case) []string {
 		if c.Via == "trace" {
 			ctx := withWireCapture(context.Background())
 			setWireTrace(ctx, tracer.Trace{TestName: "t", Response: &http.Response{StatusCode: 200, Header: http.Header{"Content-Type": {"application/connect+proto"}}},
-				Events: []tracer.Event{&tracer.ResponseBodyEndStream{Content: body}}})
+				Events: []tracer.Event{&tracer.ResponseBodyEndStream{Content: body}}, Err: map[bool]error{true: io.ErrUnexpectedEOF, false: nil}[c.TraceErr]})
 			examineWireDetails(ctx, p)
 		} else {
 			examineConnectEndStream([]byte(body), p)
@@ -537,7 +547,7 @@ func vfExamine(c vfC13Case) []string {
 		if c.Via == "trace" {
 			ctx := withWireCapture(context.Background())
 			setWireTrace(ctx, tracer.Trace{TestName: "t", Response: &http.Response{StatusCode: 200, Header: http.Header{"Content-Type": {"application/grpc-web+proto"}}},
-				Events: []tracer.Event{&tracer.ResponseBodyEndStream{Content: block}}})
+				Events: []tracer.Event{&tracer.ResponseBodyEndStream{Content: block}}, Err: map[bool]error{true: io.ErrUnexpectedEOF, false: nil}[c.TraceErr]})
 			examineWireDetails(ctx, p)
 		} else {
 			checkGRPCStatus(examineGRPCEndStream(block, p), p)
@@ -650,7 +660,7 @@ func TestVerifC13WellFormed(t *testing.T) {
 		Gen: func(t *rapid.T) vfC13Case {
 			form := rapid.SampledFrom([]string{"connect-error", "end-stream", "grpc-web", "grpc"}).Draw(t, "form")
 			e := vfGenErrSpec(t, form == "grpc" || form == "grpc-web" || form == "end-stream")
-			return vfC13Case{Err: e, Form: form, Via: rapid.SampledFrom([]string{"direct", "trace"}).Draw(t, "via")}
+			return vfC13Case{Err: e, Form: form, Via: rapid.SampledFrom([]string{"direct", "trace"}).Draw(t, "via"), TraceErr: rapid.IntRange(0, 3).Draw(t, "traceErr") == 0}
 		},
 		Check: vfC13Check,
 		Classify: func(c vfC13Case) ([]string, bool) {
@@ -670,7 +680,7 @@ func TestVerifC13Malformed(t *testing.T) {
 		Gen: func(t *rapid.T) vfC13Case {
 			form := rapid.SampledFrom([]string{"connect-error", "end-stream", "grpc-web", "grpc", "http-trailers"}).Draw(t, "form")
 			e := vfGenErrSpec(t, false)
-			c := vfC13Case{Err: e, Form: form, Via: rapid.SampledFrom([]string{"direct", "trace"}).Draw(t, "via")}
+			c := vfC13Case{Err: e, Form: form, Via: rapid.SampledFrom([]string{"direct", "trace"}).Draw(t, "via"), TraceErr: rapid.IntRange(0, 3).Draw(t, "traceErr") == 0}
 			switch form {
 			case "connect-error":
 				c.Mal = rapid.SampledFrom(vfSortedKeys(vfConnectErrorMals)).Draw(t, "mal")
